@@ -65,6 +65,10 @@ def props_of(rep, rec=None):
     elif tag == "fees.values" or tag == "post.fee":
         # C02: "the fee percentiles are answered with respect to that same tip"
         out |= {"C15", "C02"}
+        if rep.get("after_upg"):
+            # C09: the per-block fee rates are not serialised and are rebuilt after an upgrade; a wrong answer in a
+            # run that was upgraded is a run that does not "reach the same observable states as a run without"
+            out |= {"C09"}
     elif tag == "config.value" or tag == "post.cfg":
         out |= {"C09", "C14"}
     elif tag in ("post.stableH", "post.hdr", "post.hdrOk"):
